@@ -312,14 +312,19 @@ func (w *world) step(ev *event, trackers map[string]*imapserver.SessionTracker, 
 			s := w.sess[name]
 			var rs []*vh.Resp
 			s.raw.Timeout = 2 * time.Second
+			short := false
 			for i := 0; i < want[name]; i++ {
 				r, cerr := s.raw.ReadResp()
 				if cerr != nil {
+					short = true
 					break
 				}
 				rs = append(rs, r)
 			}
 			s.raw.Timeout = 5 * time.Second
+			if short {
+				return nil, fmt.Errorf("idling session %s delivered %d of the %d updates dispatched to it within 2 s", name, len(rs), want[name])
+			}
 			em, bad := parseEmit(rs)
 			if bad != "" {
 				return nil, fmt.Errorf("%s", bad)
